@@ -5,6 +5,8 @@
 import Edn.Proofs.Reject
 import Edn.Proofs.NumberSound
 import Edn.Proofs.IdentSound
+import Edn.Proofs.Sound
+import Edn.Proofs.CharSound
 
 namespace Edn.Properties.C10
 open Edn.Model Edn.Proofs
@@ -117,6 +119,22 @@ theorem identifier_outside_grammar_rejected (ctx : Ctx) (tok rest : Bytes) (cl :
     (hbad : ¬ (Edn.Spec.IdentLex tok ∧ ∃ a, Edn.Spec.IdentDenotes tok a)) :
     ∃ e st', readIdentifier ctx { rest := tok ++ rest, calls := cl } = .err e st' ∧ e.code = .invalidSyntax :=
   Edn.Proofs.readIdentifier_rejects ctx tok rest cl hne hr hbad
+
+/-- **Nothing outside the grammar is accepted** (core configuration, no registry): an input no
+    prefix of which is a form of `Edn.Spec.Form` within the nesting limit is never read as a value -
+    the result is an error or (only for blank input) the end-of-input outcome -/
+theorem core_outside_grammar_never_a_value (opts : Opts) (hreg : opts.registry = none) (input : Bytes)
+    (hnot : ¬ ∃ k a tok rest, k ≤ Edn.Generated.Tables.maxNestingDepth ∧ input = tok ++ rest ∧ Edn.Spec.Form k a tok rest) :
+    ∀ v, (read Cfg.core opts input).out ≠ .value v := by
+  intro v h
+  obtain ⟨k, tok, rest, hk, h1, h2⟩ := (Edn.Proofs.read_core_iff opts hreg input (Edn.Spec.strip v)).1 ⟨v, h, rfl⟩
+  exact hnot ⟨k, _, tok, rest, hk, h1, h2⟩
+
+/-- every failure of the character reader is INVALID_CHARACTER, reported from the backslash, with
+    the cursor left there (every configuration) -/
+theorem character_errors (ctx : Ctx) (st st' : St) (e : ErrInfo) (h : readCharacter ctx st = .err e st') :
+    e.code = .invalidCharacter ∧ e.es = some st.rest.length ∧ st' = st :=
+  Edn.Proofs.readCharacter_err ctx st st' e h
 
 /-- non-vacuity: `[1 2` is an unterminated collection, `{:a}` an odd map, `)` a stray closer -/
 example : (match (read Cfg.core {} "[1 2".toUTF8.toList).out with | .error c _ _ => c == .unterminatedCollection | _ => false) = true := by decide +kernel
